@@ -167,3 +167,18 @@ package udf
 //@       && as(callarg(writeRequest, 0).Message, *agent.Request_End).End.Group == string(groupInfo.ID)
 //@       && as(callarg(writeRequest, 0).Message, *agent.Request_End).End.Tmax == tmax.UnixNano()
 //@       && as(callarg(writeRequest, 0).Message, *agent.Request_End).End.Tags == groupInfo.Tags
+
+// ---------------------------------------------------------------- server.go: one writer (C19)
+// "data crosses the UDF boundary unchanged": a message is written as two writes (size, body), so
+// only one goroutine may write to the UDF process: writeData. A control request (info, init,
+// snapshot, restore) is handed to that goroutine over the requests channel; the calling goroutine
+// never writes to the process itself.
+//@ func (*Server).doRequestResponse
+//@   props C19
+//@   requires s != nil
+//@   guardcall send#1: s != nil
+//@   ensures [caller-never-writes] !called(writeRequest)
+//@ func (*Server).doRequestResponse$1
+//@   props C19
+//@   requires s != nil
+//@   modifies nothing
